@@ -72,7 +72,7 @@ func (i c13interpC) StaticCheck(u interface{}, n parsley.NonTerminalNode) (inter
 	if i.m.id == i.w.failAt {
 		return nil, parsley.NewErrorf(n.Pos(), "fail %d", i.m.id)
 	}
-	return fmt.Sprintf("S%d", i.m.id), nil
+	return fmt.Sprintf("S%d@%v", i.m.id, u), nil
 }
 
 type c13interpT struct{ c13interp }
@@ -269,36 +269,54 @@ func c13exec(j run.Job, a *run.Acc) {
 				schema[m.id] = fmt.Sprintf("S%d", m.id)
 			}
 		}
-		failed := false
-		for _, m := range checkers {
-			var ks []string
-			for _, k := range m.kids {
-				s, has := schema[k.id]
-				if !has {
-					s = "<nil>"
+		// expected log and schemas of one pass with user context uc; prior = schemas left on the nodes by earlier passes
+		expectPass := func(uc string, failAt int, schema map[int]string) (want []string, failed bool) {
+			for _, m := range checkers {
+				var ks []string
+				for _, k := range m.kids {
+					s, has := schema[k.id]
+					if !has {
+						s = "<nil>"
+					}
+					ks = append(ks, s)
 				}
-				ks = append(ks, s)
+				want = append(want, fmt.Sprintf("check %d same=true u=%s kids=[%s]", m.id, uc, strings.Join(ks, ",")))
+				if m.id == failAt {
+					return want, true
+				}
+				schema[m.id] = fmt.Sprintf("S%d@%s", m.id, uc)
 			}
-			want = append(want, fmt.Sprintf("check %d same=true u=UC kids=[%s]", m.id, strings.Join(ks, ",")))
-			if m.id == w.failAt {
-				failed = true
-				break
-			}
-			schema[m.id] = fmt.Sprintf("S%d", m.id)
+			return want, false
 		}
+		verifySchemas := func(pass string) {
+			for _, m := range order {
+				if m.kind == 2 {
+					s, has := schema[m.id]
+					got := m.node.Schema()
+					if has && got != s || !has && got != nil {
+						a.Violate("schema-not-recorded", "schema-not-recorded", desc(map[string]any{"pass": pass, "node": m.id, "got": fmt.Sprint(got), "want": s}))
+					}
+				}
+			}
+		}
+		want, failed := expectPass("UC", w.failAt, schema)
 		a.Count("checker invocations observed", int64(len(w.log)))
 		if strings.Join(w.log, ";") != strings.Join(want, ";") || (err != nil) != failed || (err != nil && err.Error() != fmt.Sprintf("fail %d", w.failAt)) {
-			a.Violate("static-check-order", "static-check-order", desc(map[string]any{"log": w.log, "expected": want, "error": fmt.Sprint(err), "fail_at": w.failAt}))
+			a.Violate("static-check-order", "static-check-order", desc(map[string]any{"pass": "first", "log": w.log, "expected": want, "error": fmt.Sprint(err), "fail_at": w.failAt}))
 		}
-		for _, m := range order {
-			if m.kind == 2 {
-				s, has := schema[m.id]
-				got := m.node.Schema()
-				if has && got != s || !has && got != nil {
-					a.Violate("schema-not-recorded", "schema-not-recorded", desc(map[string]any{"node": m.id, "got": fmt.Sprint(got), "want": s}))
-				}
-			}
+		verifySchemas("first")
+		// a SECOND pass over the same tree (another user context; e.g. re-checking after a pass that aborted):
+		// every checker runs again, sees its children's schemas of THIS pass and the new schema replaces the old one
+		w.failAt = -1
+		w.log = nil
+		err2 := parsley.StaticCheck("UC2", rootNode)
+		want2, _ := expectPass("UC2", -1, schema)
+		a.Count("checker invocations observed", int64(len(w.log)))
+		if strings.Join(w.log, ";") != strings.Join(want2, ";") || err2 != nil {
+			a.Violate("static-check-second-pass", "static-check-second-pass", desc(map[string]any{"pass": "second", "log": w.log, "expected": want2, "error": fmt.Sprint(err2)}))
 		}
+		verifySchemas("second")
+		a.Count("second static-check passes over an already checked tree", 1)
 		if failed {
 			a.Count("static checks aborted by an injected error", 1)
 		}
